@@ -5,7 +5,9 @@
 (* the inverse of the recorded shape relations, assigned relations equal the lattice truth, remove   *)
 (* never fails.  DEV_StaticRegistersCenter reproduces the shipped static-obstacle defect.            *)
 EXTENDS Assignment, Json
-CONSTANTS MaxSteps, DEV_StaticRegistersCenter
+CONSTANTS MaxSteps, DEV_StaticRegistersCenter,
+          DEV_ReassignKeepsOld,      \* a repeated assignment only adds registry entries (stale ones of a moved obstacle stay)
+          DEV_RemoveNeedsLanelets    \* remove_obstacle looks up every recorded lanelet and fails if one is gone
 
 Lan == (1 :> <<0, 0, 2, 2>>) @@ (2 :> <<2, 0, 4, 2>>) @@ (3 :> <<0, 2, 2, 4>>)
 Obs == (11 :> [kind |-> "static",  shape |-> <<"rect", 2, 1>>, t0 |-> 0, poses |-> <<<<3, 2, 0>>>>]) @@         \* centre in 1, shape on 1 and 2
@@ -13,48 +15,72 @@ Obs == (11 :> [kind |-> "static",  shape |-> <<"rect", 2, 1>>, t0 |-> 0, poses |
        (13 :> [kind |-> "dynamic", shape |-> <<"rect", 1, 1>>, t0 |-> 0, poses |-> <<<<2, 2, 0>>, <<4, 2, 0>>, <<6, 2, 1>>>>]) @@  \* crosses the shared edge
        (14 :> [kind |-> "dynamic", shape |-> <<"poly", 2, 2>>, t0 |-> 1, poses |-> <<<<2, 4, 0>>>>]) @@          \* no prediction, on the edge 1|3
        (15 :> [kind |-> "dynamic", shape |-> <<"rect", 3, 1>>, t0 |-> 0, poses |-> <<<<2, 2, 0>>, <<2, 2, 1>>, <<2, 2, 0>>>>])  \* turning on the spot: {1,2} / {1,3}
-W == [L |-> DOMAIN Lan, lan |-> Lan, O |-> DOMAIN Obs, ob |-> Obs]
+W0 == [L |-> DOMAIN Lan, lan |-> Lan, O |-> DOMAIN Obs, ob |-> Obs]
 
-VARIABLES present, rel, regS, regD, failed, steps, act
-vars == <<present, rel, regS, regD, failed, steps, act>>
+VARIABLES present, rel, regS, regD, failed, steps, act,
+          moved,     \* obstacles that were moved by Shift (obstacle-level translate_rotate) since they were built
+          gone       \* lanelets removed from the network
+vars == <<present, rel, regS, regD, failed, steps, act, moved, gone>>
+Shift == <<4, 0>>                                   \* doubled coordinates: two units to the right
+Movable == {11, 13}
+ShiftOb(o) == [o EXCEPT !.poses = [i \in DOMAIN @ |-> <<@[i][1] + Shift[1], @[i][2] + Shift[2], @[i][3]>>]]
+(* the CURRENT world: remaining lanelets, obstacles at their current poses *)
+W == [L |-> DOMAIN Lan \ gone, lan |-> Lan, O |-> DOMAIN Obs, ob |-> [o \in DOMAIN Obs |-> IF o \in moved THEN ShiftOb(Obs[o]) ELSE Obs[o]]]
 (* rel[o]: "none" or the recorded shape relation per time step; regS[l] set of static ids; regD[l] set of <<t, o>> *)
 NoRel == [t \in {} |-> {}]
-Init == /\ present = {} /\ rel = [o \in W.O |-> NoRel] /\ regS = [l \in W.L |-> {}] /\ regD = [l \in W.L |-> {}]
-        /\ failed = FALSE /\ steps = 0 /\ act = <<"init", 0>>
+Init == /\ present = {} /\ rel = [o \in W0.O |-> NoRel] /\ regS = [l \in W0.L |-> {}] /\ regD = [l \in W0.L |-> {}]
+        /\ failed = FALSE /\ steps = 0 /\ act = <<"init", 0>> /\ moved = {} /\ gone = {}
 Horizon(o) == W.ob[o].t0..LastT(W.ob[o])
 Add(o) == /\ o \notin present /\ present' = present \cup {o} /\ rel' = [rel EXCEPT ![o] = NoRel]
-          /\ UNCHANGED <<regS, regD, failed>> /\ act' = <<"add", o>>
+          /\ UNCHANGED <<regS, regD, failed, moved, gone>> /\ act' = <<"add", o>>
 AssignAll ==
     LET shp(o) == [t \in Horizon(o) |-> ExpShape(W, W.ob[o], t)]
         regOf(o) == IF DEV_StaticRegistersCenter /\ W.ob[o].kind = "static" THEN ExpCenter(W, W.ob[o], W.ob[o].t0)
                     ELSE ExpShape(W, W.ob[o], W.ob[o].t0)
     IN /\ present # {}
        /\ rel' = [o \in W.O |-> IF o \in present THEN shp(o) ELSE rel[o]]
-       /\ regS' = [l \in W.L |-> regS[l] \cup {o \in present : W.ob[o].kind = "static" /\ l \in regOf(o)}]
-       /\ regD' = [l \in W.L |-> regD[l] \cup {<<t, o>> \in (0..8) \X present :
-                                               W.ob[o].kind = "dynamic" /\ t \in Horizon(o) /\ l \in ExpShape(W, W.ob[o], t)}]
-       /\ UNCHANGED <<present, failed>> /\ act' = <<"assign", 0>>
+       \* a repeated assignment REPLACES the registrations of the assigned obstacles
+       /\ regS' = [l \in W0.L |-> IF l \in gone THEN {} ELSE
+                       (IF DEV_ReassignKeepsOld THEN regS[l] ELSE regS[l] \ present)
+                       \cup {o \in present : W.ob[o].kind = "static" /\ l \in regOf(o)}]
+       /\ regD' = [l \in W0.L |-> IF l \in gone THEN {} ELSE
+                       (IF DEV_ReassignKeepsOld THEN regD[l] ELSE {p \in regD[l] : p[2] \notin present})
+                       \cup {<<t, o>> \in (0..8) \X present :
+                                W.ob[o].kind = "dynamic" /\ t \in Horizon(o) /\ l \in ExpShape(W, W.ob[o], t)}]
+       /\ UNCHANGED <<present, failed, moved, gone>> /\ act' = <<"assign", 0>>
 Remove(o) ==
     LET t0 == W.ob[o].t0
         ls == IF rel[o] = NoRel THEN {} ELSE rel[o][t0]
+        recorded == IF rel[o] = NoRel THEN {} ELSE UNION {rel[o][t] : t \in DOMAIN rel[o]}
     IN /\ o \in present /\ present' = present \ {o}
        /\ IF W.ob[o].kind = "static"
-          THEN /\ failed' = (failed \/ \E l \in ls : o \notin regS[l])          \* set.remove raises KeyError
-               /\ regS' = [l \in W.L |-> IF l \in ls THEN regS[l] \ {o} ELSE regS[l]] /\ UNCHANGED regD
-          ELSE /\ regD' = [l \in W.L |-> {p \in regD[l] : p[2] # o \/ (rel[o] # NoRel /\ p[1] \in DOMAIN rel[o] /\ l \notin rel[o][p[1]])}]
-               /\ UNCHANGED <<regS, failed>>
-       /\ rel' = [rel EXCEPT ![o] = NoRel] /\ act' = <<"remove", o>>
+          THEN /\ failed' = (failed \/ (DEV_RemoveNeedsLanelets /\ ls \cap gone # {}))   \* None.static_obstacles_on_lanelet
+               /\ regS' = [l \in W0.L |-> IF l \in ls THEN regS[l] \ {o} ELSE regS[l]] /\ UNCHANGED regD
+          ELSE /\ regD' = [l \in W0.L |-> {p \in regD[l] : p[2] # o \/ (rel[o] # NoRel /\ p[1] \in DOMAIN rel[o] /\ l \notin rel[o][p[1]])}]
+               /\ failed' = (failed \/ (DEV_RemoveNeedsLanelets /\ recorded \cap gone # {}))
+               /\ UNCHANGED regS
+       /\ rel' = [rel EXCEPT ![o] = NoRel] /\ UNCHANGED <<moved, gone>> /\ act' = <<"remove", o>>
+(* obstacle-level translate_rotate: poses change, recorded relations and registries stay (stale until re-assigned) *)
+Move(o) == /\ o \in present /\ o \in Movable /\ o \notin moved /\ moved' = moved \cup {o}
+           /\ UNCHANGED <<present, rel, regS, regD, failed, gone>> /\ act' = <<"move", o>>
+(* Scenario.remove_lanelet: the lanelet and its registries disappear; obstacles keep the id in their recorded relations *)
+RemoveLanelet(l) == /\ l \notin gone /\ gone' = gone \cup {l}
+                    /\ regS' = [regS EXCEPT ![l] = {}] /\ regD' = [regD EXCEPT ![l] = {}]
+                    /\ UNCHANGED <<present, rel, failed, moved>> /\ act' = <<"remove_lanelet", l>>
 Next == /\ steps < MaxSteps /\ steps' = steps + 1
-        /\ \/ \E o \in W.O : Add(o) \/ Remove(o)
+        /\ \/ \E o \in W.O : Add(o) \/ Remove(o) \/ Move(o)
            \/ AssignAll
+           \/ RemoveLanelet(2)
 Spec == Init /\ [][Next]_vars
 
+(* after an assignment the recorded relations are the truth of the CURRENT world (moved obstacles, remaining lanelets) *)
+PropAssignTruth == [][act'[1] = "assign" => \A o \in present' : \A t \in DOMAIN rel'[o] : rel'[o][t] = ExpShape(W', W'.ob[o], t)]_vars
 InvInverseStatic == \A l \in W.L : regS[l] = {o \in present : W.ob[o].kind = "static" /\ rel[o] # NoRel /\ l \in rel[o][W.ob[o].t0]}
 InvInverseDynamic == \A l \in W.L : regD[l] = {<<t, o>> \in (0..8) \X present : W.ob[o].kind = "dynamic" /\ rel[o] # NoRel
                                                                               /\ t \in DOMAIN rel[o] /\ l \in rel[o][t]}
 InvRemoveTotal == ~failed
 InvCentreVsShape == \A o \in W.O : \A t \in Horizon(o) : /\ ExpCenter(W, W.ob[o], t) \subseteq ExpShape(W, W.ob[o], t)
                                                               /\ MustShape(W, W.ob[o], t) \subseteq ExpShape(W, W.ob[o], t)
-StKey == [present |-> present, regS |-> regS, steps |-> steps, assigned |-> {o \in W.O : rel[o] # NoRel}]
+StKey == [present |-> present, regS |-> regS, steps |-> steps, assigned |-> {o \in W.O : rel[o] # NoRel}, moved |-> moved, gone |-> gone]
 Emit == PrintT(<<"EDGE", ToJson([from |-> StKey, act |-> act', to |-> StKey'])>>)
 ===================================================================================
